@@ -120,12 +120,12 @@ def cfg_C04(tier, rng):
 
 
 def cfg_C05(tier, rng):
-    k = 5 if tier == QUICK else 100
+    k = 5 if tier == QUICK else 24
     charts = gc.family_f3(rng, k, nmin=3, nmax=5, tmin=3, tmax=6, nev=2, max_oracle=2)
     return [dict(name='queues', charts=charts,
                  consts=dict(MaxQ=2 if tier == QUICK else 3, MaxClk=2 if tier == QUICK else 3,
                              Delays={0, 1, 2}, Advances={1, 2}, Params={0},
-                             MaxLevel=6 if tier == QUICK else 8),
+                             MaxLevel=6 if tier == QUICK else 7),
                  variants=[dict(variant='api', shadow=True), dict(variant='api', epoch=EPOCH)],
                  jobs_for=(lambda ci, h, r: [[dict(variant='api', shadow=True), dict(variant='api', epoch=EPOCH)][(ci + len(h)) % 2]])
                  if tier == QUICK else None,
